@@ -90,7 +90,7 @@ def gsubFlags (s : Array UInt8) (P? : Except BErr Pattern) (repl : List UInt8) (
     match Gsub.gsubRun machineFuel s P repl n with
     | .done st =>
       (if st.matchCount > st.accepted.length then ["rej" ++ tag] else []) ++
-      (if st.wrote && st.out.isEmpty then ["eo" ++ tag] else [])
+      ([] : List String)
     | _ => []
   | _ => []
 
